@@ -27,6 +27,10 @@ class SyncProducer:
         :param period:
             Period of SYNC message in seconds.
         """
+        # Stop an already running transmission if we have one, otherwise we
+        # overwrite the reference and can lose our handle to shut it down
+        self.stop()
+
         if period is not None:
             self.period = period
 
@@ -39,3 +43,4 @@ class SyncProducer:
         """Stop periodic transmission of SYNC message."""
         if self._task is not None:
             self._task.stop()
+            self._task = None
